@@ -114,6 +114,12 @@ def _window(file, win):
         if not end.any():
             break
         sk[end] = 0
+    # one tissue: keep the largest 8-connected piece of skeleton (a selected cell that touches no other
+    # selected cell would otherwise be a separate ring whose inside and outside contour coincide)
+    n, lab2, stats2, _ = cv2.connectedComponentsWithStats(sk, connectivity=8)
+    if n > 2:
+        big = 1 + int(np.argmax(stats2[1:, cv2.CC_STAT_AREA]))
+        sk = (lab2 == big).astype(np.uint8)
     ys, xs = np.nonzero(sk)
     if len(ys) == 0:
         return a
